@@ -50,26 +50,26 @@ _FP_FILE = {"write_at": "c14_write_at", "get_size": "c14_get_size",
 HARNESSES = [
     dict(name="init_unreadable", file="init_unreadable.c", label="proved",
          fp={"write_at": "iu_write_at", "read_at": "iu_read_at"},
-         unwind=22, timeout=300,
+         unwind=22, timeout=900,
          cases=[dict(id="all", tier="quick")]),
     dict(name="file_write_at", file="file_write_at.c", label="proved",
          loops=["stdio_write_at"], loop_tables=["C12"], solver="cadical",
-         timeout=300, cases=[dict(id="all", tier="quick")]),
+         timeout=900, cases=[dict(id="all", tier="quick")]),
     dict(name="file_write_at_bmc", file="file_write_at.c",
          label="bounded(n <= 3, EINTR <= 2)", defines={"C14_BMC": 1}, unwind=7,
          solver="cadical",
-         timeout=300, cases=[dict(id="n3", tier="quick")]),
-    dict(name="open_flags", file="open_flags.c", label="proved", timeout=300,
+         timeout=900, cases=[dict(id="n3", tier="quick")]),
+    dict(name="open_flags", file="open_flags.c", label="proved", timeout=900,
          nochecks=["--conversion-check"],   # "flags & ~ALL_FLAGS": int mask to unsigned
          cases=[dict(id="native_open", tier="quick")]),
-    dict(name="open_handle", file="open_flags.c", label="proved", timeout=300,
+    dict(name="open_handle", file="open_flags.c", label="proved", timeout=900,
          defines={"C14_OPEN_HANDLE_ONLY": 1},
          fp={"get_size": "stdio_get_size", "destroy": "stdio_destroy", "copy": "stdio_copy"},
          unwindset=["strlen.0:9", "memcpy.0:9"],
          cases=[dict(id="file_open", tier="quick")]),
     dict(name="idtable_entry", file="idtable_entry.c", label="proved",
          fp={"destroy": "id_destroy_stub", "copy": "id_copy_stub"},
-         unwind=22, timeout=300, cases=[dict(id="all", tier="quick")]),
+         unwind=22, timeout=900, cases=[dict(id="all", tier="quick")]),
     dict(name="torn_super", file="torn_super.c", label="proved",
          fp={"destroy": "id_destroy_stub", "copy": "id_copy_stub",
              "write_at": "ts_write_at", "read_at": "ts_read_at"},
@@ -84,17 +84,17 @@ HARNESSES = [
          timeout=600, cases=[dict(id="all", tier="quick")]),
     dict(name="ao_write_block", file="ao_write_block.c", label="proved",
          fp=dict(_FP_FILE, do_block="c14_do_block", destroy="c14_obj_destroy"),
-         timeout=300, cases=[dict(id="all", tier="quick")]),
+         timeout=900, cases=[dict(id="all", tier="quick")]),
     dict(name="ao_write_table", file="ao_write_table.c", label="proved",
          loops=["sqfs_write_table"],
          fp=dict(_FP_FILE, destroy="mw_destroy"),
          timeout=600, cases=[dict(id="all", tier="quick")]),
     dict(name="ao_write_options", file="ao_write_options.c", label="proved",
          fp=dict(_FP_FILE, **{"*": "c14_comp_create"}),
-         timeout=300, cases=[dict(id="all", tier="quick")]),
+         timeout=900, cases=[dict(id="all", tier="quick")]),
     dict(name="ao_xattr_loctable", file="ao_xattr_loctable.c", label="proved",
          fp=dict(_FP_FILE, destroy="c14_obj_destroy"),
-         timeout=300, cases=[dict(id="all", tier="quick")]),
+         timeout=900, cases=[dict(id="all", tier="quick")]),
     dict(name="xattr_flush", file="xattr_flush.c", label="proved",
          mode="dfcc", replace=["write_kv_pairs", "write_id_table", "alloc_location_table"],
          loops=["sqfs_xattr_writer_flush"], native=False,
